@@ -87,7 +87,7 @@ var knownMatchers = map[string]func(class string, attrs map[string]string, param
 	// C12: an empty slice / empty map / nil pointer is written as a commented
 	// entry, which cannot override a non-empty `default:` tag on reading.
 	"c12-empty-value-with-default-tag": func(class string, a map[string]string, _ map[string]string) bool {
-		return class == "c12:value-differs" && (a["value_class"] == "empty" || a["value_class"] == "nil") && a["has_default"] == "true" && a["read_failed"] == "false"
+		return class == "c12:value-differs" && (a["value_class"] == "empty" || a["value_class"] == "nil") && a["has_default"] == "true" && a["read_failed"] == "false" && a["back_is_default"] == "true"
 	},
 }
 
